@@ -598,7 +598,8 @@ class PythonTypesBackend(CodeBackend):
                 dt_nullable = True
             else:
                 field_dt = field.data_type
-                dt_nullable = False
+                # a field whose type is an alias of a nullable type is optional too
+                dt_nullable = unwrap(field.data_type)[1]
 
             # generate getter for field
             args = '"{}"'.format(field_name)
